@@ -49,9 +49,9 @@ def closure_seq(kinds, label: str):
 
 def c02_seq3(k0: int, i1: int, i2: int, l0: int, l1: int) -> bool:
     """
-    pre: 0 <= i1 <= 11 and 0 <= i2 <= 11
-    pre: 33 <= l0 <= 126 and l0 != 36 and 33 <= l1 <= 126 and l1 != 36
-    post: _ == True
+    vpre: 0 <= i1 <= 11 and 0 <= i2 <= 11
+    vpre: 33 <= l0 <= 126 and l0 != 36 and 33 <= l1 <= 126 and l1 != 36
+    vpost: _ == True
     """
     return closure_seq([M.TEXT, k0, VOC[i1], VOC[i2]], S(l0, l1))
 
@@ -111,13 +111,13 @@ def _mk_layout(shape: int, names):
 
 def c02_names(shape: int, a0: int, a1: int, b0: int, b1: int, c0: int, c1: int, d0: int, d1: int) -> bool:
     """
-    pre: (97 <= a0 <= 122 or a0 == 95) and (97 <= a1 <= 122 or 48 <= a1 <= 57 or a1 == 45 or a1 == 46)
-    pre: (97 <= b0 <= 122 or b0 == 95) and (97 <= b1 <= 122 or 48 <= b1 <= 57 or b1 == 45 or b1 == 46)
-    pre: (97 <= c0 <= 122 or c0 == 95) and (97 <= c1 <= 122 or 48 <= c1 <= 57 or c1 == 45 or c1 == 46)
-    pre: (97 <= d0 <= 122 or d0 == 95) and (97 <= d1 <= 122 or 48 <= d1 <= 57 or d1 == 45 or d1 == 46)
-    pre: not (a0 == b0 and a1 == b1) and not (a0 == c0 and a1 == c1) and not (a0 == d0 and a1 == d1)
-    pre: not (b0 == c0 and b1 == c1) and not (b0 == d0 and b1 == d1) and not (c0 == d0 and c1 == d1)
-    post: _ == True
+    vpre: (97 <= a0 <= 122 or a0 == 95) and (97 <= a1 <= 122 or 48 <= a1 <= 57 or a1 == 45 or a1 == 46)
+    vpre: (97 <= b0 <= 122 or b0 == 95) and (97 <= b1 <= 122 or 48 <= b1 <= 57 or b1 == 45 or b1 == 46)
+    vpre: (97 <= c0 <= 122 or c0 == 95) and (97 <= c1 <= 122 or 48 <= c1 <= 57 or c1 == 45 or c1 == 46)
+    vpre: (97 <= d0 <= 122 or d0 == 95) and (97 <= d1 <= 122 or 48 <= d1 <= 57 or d1 == 45 or d1 == 46)
+    vpre: not (a0 == b0 and a1 == b1) and not (a0 == c0 and a1 == c1) and not (a0 == d0 and a1 == d1)
+    vpre: not (b0 == c0 and b1 == c1) and not (b0 == d0 and b1 == d1) and not (c0 == d0 and c1 == d1)
+    vpost: _ == True
     """
     names = [S(a0, a1), S(b0, b1), S(c0, c1), S(d0, d1)]
     s, paths = _mk_layout(shape, names)
